@@ -51,6 +51,14 @@ impl Scenario for C02 {
             "ECDSA (r, n-s) malleability is not in the property's fault list and is not injected".into(),
         ]
     }
+    fn adopts(&self, v: &crate::world::Violation) -> bool {
+        // every token sealed in these plans is recomputed by the independent implementation. A token whose
+        // tag or signature is not over the specification's (injective) encoding of header, message,
+        // footer and assertion is authenticated over *something else*: which other (message, footer,
+        // assertion) splits it then also authenticates cannot be enumerated by corrupting honest tokens,
+        // so the deviation itself is the finding for this property
+        matches!((v.property, v.class.as_str()), ("C03", "reference-rejects-library-token" | "not-bit-exact" | "reference-decodes-differently"))
+    }
     fn extra_coverage(&self, stats: &crate::world::Stats) -> std::collections::BTreeMap<String, serde_json::Value> {
         let mut m = std::collections::BTreeMap::new();
         m.insert("exhaustive".into(), serde_json::json!(false));
